@@ -27,7 +27,8 @@ Obligations: `json_write_no_newline`, `json_write_no_newline_floatfree`,
 `json_spellings_partial`, `json_frame_recover`, `json_frame_recover_floats`,
 `json_slice_eq_reader_partial`, `json_slice_docs_prefix`,
 `json_reader_ok_is_utf8`, `json_unseparated_counterexample`,
-`json_depth_boundary`, `json_dash_not_value`.
+`json_depth_boundary`, `json_dash_not_value`, `json_own_output_detected`,
+`json_trial_slice_le_reader`, `json_trial_differs_counterexample`.
 -/
 namespace Xt.Props.Json
 open Xt.Json
@@ -255,25 +256,61 @@ theorem json_depth_boundary (F : ExtFloat) (v : JVal) (hwf : wellFormed v = true
     refine ⟨by simpa [expectV, hd'] using hp, by simp [hr, hd'], ?_⟩
     simp [sliceLoop, hv, hs, hd']
 
+/-! ## The detection trial -/
+
+/-- C10 (`own_json_detected`): on xt's own JSON output — one or more documents,
+of ANY nesting depth (the trial has no recursion limit) — the JSON detection
+trial `json::input_matches` answers yes, from a slice and from a reader.
+(The MessagePack trial, which runs first, sees `json_first_byte`.) -/
+theorem json_own_output_detected (F : ExtFloat) (d : JVal) (ds : List JVal)
+    (h : ∀ x ∈ d :: ds, wellFormed x = true) :
+    trialReader (writeDocs F (d :: ds)) = true ∧ trialSlice (writeDocs F (d :: ds)) = true := by
+  have hig : ignoreValue (writeDocs F (d :: ds)) = .ok (0x0A :: writeDocs F ds) := by
+    have := (ignore_write_all F).1 d (h d (by simp)) [] (0x0A :: writeDocs F ds)
+      (fun _ => by simp [numEnd, isDigit])
+    simpa [ignoreValue, writeDocs, doneF] using this
+  have hr : trialReader (writeDocs F (d :: ds)) = true := by simp [trialReader, hig]
+  refine ⟨hr, ?_⟩
+  simp [trialSlice, hr, validUtf8, writeDocs_valid F (d :: ds) h]
+
+/-- The slice trial is the reader trial behind an up-front UTF-8 check of the
+whole input: it can only be stricter, and on UTF-8 input they agree. -/
+theorem json_trial_slice_le_reader (bs : List Nat) :
+    (trialSlice bs = true → trialReader bs = true) ∧
+    (validUtf8 bs = true → trialSlice bs = trialReader bs) := by
+  constructor
+  · intro h; simp [trialSlice] at h; exact h.2
+  · intro h; simp [trialSlice, h]
+
+/-- They do NOT agree in general (reported to the lead as a defect of xt, C02 /
+C09): `1: é\n` in UTF-16LE is not UTF-8, so the slice trial declines (and the
+YAML trial then accepts the document), while the reader trial reads the first
+value `1` — the NUL after it ends the number — and answers yes, after which the
+reader-mode translation fails. -/
+theorem json_trial_differs_counterexample :
+    let bs := [0x31, 0x00, 0x3A, 0x00, 0x20, 0x00, 0xE9, 0x00, 0x0A, 0x00]
+    trialSlice bs = false ∧ trialReader bs = true := by
+  have hv : validUtf8 [0x31, 0x00, 0x3A, 0x00, 0x20, 0x00, 0xE9, 0x00, 0x0A, 0x00] = false := by decide
+  have hr : trialReader [0x31, 0x00, 0x3A, 0x00, 0x20, 0x00, 0xE9, 0x00, 0x0A, 0x00] = true := by
+    simp [trialReader, ignoreValue, igValue_eq, skipWs, isWs, classify, isDigit, ignoreNumber, takeDigits,
+      doneF]
+  exact ⟨by simp [trialSlice, hv], hr⟩
+
 /-! ## `---` is not JSON -/
 
-/-- `ignore_integer` (the number scanner of `IgnoredAny`, which the JSON
-detection trial `json::input_matches` runs) after an optional `-` has been
-eaten: its first byte must be a digit. -/
-def ignoreIntegerHead : List Nat → Except Err Unit
-  | [] => .error .invalidNumber  -- `next_char_or_null` yields 0
-  | b :: _ => if isDigit b then .ok () else .error .invalidNumber
-
-/-- C10: xt's YAML output starts with `---`.  Neither `deserialize_any` nor the
-detection trial's `ignore_value` (same dispatch: `-` ⇒ eat it, then a number
-must follow) accepts a second `-`: `invalid number`, so the JSON trial declines
-for every continuation and at every depth budget. -/
+/-- C10 (`own_yaml_detected`): xt's YAML output starts with `---`.  Neither
+`deserialize_any` nor the detection trial's `ignore_value` (same dispatch: `-`
+⇒ eat it, then a number must follow) accepts a second `-`: `invalid number`.
+So the JSON trial declines, from a slice and from a reader, for every
+continuation, and the value parser refuses at every depth budget. -/
 theorem json_dash_not_value (d : Nat) (rest : List Nat) :
     parseValue d (0x2D :: 0x2D :: rest) = .error .invalidNumber ∧
-    ignoreIntegerHead (0x2D :: rest) = .error .invalidNumber := by
-  constructor
-  · simp [parseValue_eq, skipWs, isWs, classify, lexNumber, lexInt, isDigit]
-  · simp [ignoreIntegerHead, isDigit]
+    ignoreValue (0x2D :: 0x2D :: rest) = .error .invalidNumber ∧
+    trialReader (0x2D :: 0x2D :: rest) = false ∧ trialSlice (0x2D :: 0x2D :: rest) = false := by
+  have hi : ignoreValue (0x2D :: 0x2D :: rest) = .error .invalidNumber := by
+    simp [ignoreValue, igValue_eq, skipWs, isWs, classify, ignoreNumber, isDigit]
+  refine ⟨?_, hi, by simp [trialReader, hi], by simp [trialSlice, trialReader, hi]⟩
+  simp [parseValue_eq, skipWs, isWs, classify, lexNumber, lexInt, isDigit]
 
 /-! ## Non-vacuity -/
 
@@ -368,5 +405,8 @@ example (F : ExtFloat) : readerLoop (write F (nestMix 128 (.int 7))) = ([], .err
 #print axioms json_unseparated_counterexample
 #print axioms json_depth_boundary
 #print axioms json_dash_not_value
+#print axioms json_own_output_detected
+#print axioms json_trial_slice_le_reader
+#print axioms json_trial_differs_counterexample
 
 end Xt.Props.Json
